@@ -146,8 +146,19 @@ Restart == /\ pc = "idle" /\ s.lastRes # NoCfg /\ setup.ctx # "base"
            /\ s' = Restarted(s)
            /\ UNCHANGED <<setup, pre, pc, cur, subsv, verdict, trials, fresh, accIns, accDel, nexch0>>
 
+\* between two run calls the user moves every atom by hand, declares the remembered energy void and the simulation
+\* re-validates: everything remembered describes the edited configuration
+UserEdit == /\ pc = "idle" /\ trials >= 1 /\ setup.ctx # "base" /\ fresh < 1500
+            /\ LET n == Len(s.atoms)
+                   atoms2 == [j \in 1..n |-> [s.atoms[j] EXCEPT !.pos = fresh + j]]
+                   c == [p |-> [j \in 1..n |-> fresh + j], c |-> s.cell]
+               IN s' = [s EXCEPT !.atoms = atoms2, !.lastPos = c.p, !.lastE = c, !.lastRes = c, !.calcAtoms = c, !.calcRes = c, !.evals = @ + 1]
+            /\ pre' = s'          \* (the user, not a move, moved the atoms: constraints bind moves; the next trial starts from here)
+            /\ fresh' = fresh + 100
+            /\ UNCHANGED <<setup, pc, cur, subsv, verdict, trials, accIns, accDel, nexch0>>
+
 Trial == (\E n \in DOMAIN setup.moves : Yield(n)) \/ Call \/ (\E v \in {"acc", "rej"} : Eval(v)) \/ End \/ Idle
-Next == Restart \/ Trial
+Next == Restart \/ UserEdit \/ Trial
 Spec == Init /\ [][Next]_vars
 
 (* ---- properties ------------------------------------------------------------------------ *)
